@@ -52,14 +52,33 @@ def in_domain(*texts) -> bool:
     return all(all(c == "\n" or 32 <= ord(c) < 127 for c in t) for t in texts)
 
 
+def node_span(nodes, source):
+    """Character range of a run of nodes from their own (lineno, col_offset) -- ASCII sources only,
+    independent of core.get_charnos and of find_replace's arithmetic."""
+    starts, pos = [], 0
+    for ln in source.split("\n"):
+        starts.append(pos)
+        pos += len(ln) + 1
+    a = min(starts[n.lineno - 1] + n.col_offset for n in nodes)
+    b = max(starts[n.end_lineno - 1] + n.end_col_offset for n in nodes)
+    return (a, b)
+
+
 def all_matches(mods, pattern, source):
-    """Every match of the pattern in yield order: (range, {wildcard: unparsed text}, groups)."""
+    """Every match of the pattern in the matcher's yield order:
+    (range of the matched nodes, {wildcard: unparsed text}, groups)."""
     core, processing = mods["core"], mods["processing"]
     res = []
     with common.quiet():
         for rng, _, groups in processing.find_replace(source, pattern, "", yield_match=True):
             d = groups._asdict() if hasattr(groups, "_asdict") else {}
-            res.append(((rng.start, rng.end), {k: core.unparse(v) for k, v in d.items()}, groups))
+            root = d.get("root")
+            roots = list(root) if isinstance(root, (list, tuple)) else [root]
+            if roots and all(isinstance(r, ast.AST) and hasattr(r, "lineno") for r in roots) and source.isascii():
+                span = node_span(roots, source)
+            else:
+                span = (rng.start, rng.end)
+            res.append((span, {k: core.unparse(v) for k, v in d.items()}, groups))
     return res
 
 
@@ -255,7 +274,7 @@ def dump_norm(tree_or_text):
     return ast.dump(ast.parse(ast.unparse(tree_or_text)))
 
 
-def greedy_reference(items, ilines):
+def greedy_reference(items, ilines, dedupe=True):
     """Indices of the yielded items that the property says are applied: in yield order, skip what
     touches an ignored line or overlaps something already taken."""
     taken = []
@@ -264,7 +283,7 @@ def greedy_reference(items, ilines):
             continue
         if any(overlaps(rng, items[j][0]) for j in taken):
             continue
-        if any(items[j] == items[i] for j in range(i)):   # the scheduler drops exact duplicates
+        if dedupe and any(items[j] == items[i] for j in range(i)):   # the scheduler drops exact duplicates
             continue
         taken.append(i)
     return taken
@@ -301,49 +320,46 @@ def untouched_preserved(source, out, ranges):
     return True
 
 
+def expected_applied(ms, source, count):
+    """What the property says is applied: of the first `count` matches in yield order (all when
+    count <= 0), those that touch no ignored line and overlap nothing taken before."""
+    ilines = ignore_line_ranges(source)
+    first = ms[:count] if count > 0 else ms
+    idx = greedy_reference([(rng, None) for (rng, _, _) in first], ilines, dedupe=False)
+    return [first[i] for i in idx]
+
+
 def property_oracle(mods, pattern, repl, source, count, rec=None) -> list[dict]:
-    """All clauses of C14 on one input, evaluated on what the real code did."""
+    """All clauses of C14 on one input, judged on the value sub()/subn() returned."""
     probs = []
-    rec = rec or run_subn(mods, pattern, repl, source, count)
-    if rec["error"]:
-        if rec["error"].startswith("ValueError: Unfilled wildcards"):
+    pm = mods["pattern_matching"]
+    try:
+        with common.quiet():
+            out, n = pm.subn(pattern, repl, source, count)
+    except ValueError as e:
+        if str(e).startswith("Unfilled wildcards"):
             return []   # documented error for a replacement that uses an unknown wildcard
-        return [{"clause": "no-crash", "detail": rec["error"]}]
-    out = rec["out"]
+        return [{"clause": "no-crash", "detail": f"ValueError: {e}"}]
+    except Exception as e:
+        return [{"clause": "no-crash", "detail": f"{type(e).__name__}: {e}"}]
+    with common.quiet():
+        if pm.sub(pattern, repl, source, count) != out:
+            probs.append({"clause": "sub-is-subn", "detail": "sub() and subn()[0] differ"})
     ms = all_matches(mods, pattern, source)
     ilines = ignore_line_ranges(source)
     if not ms:
         if out != source:
             probs.append({"clause": "no-match-identity", "detail": f"{out!r}"})
         return probs
-    items = rec["items"]
-    applied_idx = greedy_reference(items, ilines)
-    want = sorted((items[i][0] for i in applied_idx), reverse=True)
-    got = [(s, e) for (_, _, s, e, _) in rec["sched"]]
-    if sorted(got, reverse=True) != want:
-        probs.append({"clause": "applied-set", "detail": f"scheduled {got}, greedy non-overlapping subset {want}"})
-    if count > 0 and len(got) > count:
-        probs.append({"clause": "count", "detail": f"{len(got)} rewrites for count={count}"})
-    if count > 0 and len(items) > count:
-        probs.append({"clause": "count", "detail": f"{len(items)} items yielded for count={count}"})
-    for r in got:
-        if any(overlaps(r, l) for l in ilines):
-            probs.append({"clause": "ignore", "detail": f"rewrite {r} touches an ignored line"})
+    want = expected_applied(ms, source, count)
+    ranges = [rng for (rng, _, _) in want]
+    if count > 0 and n > count:
+        probs.append({"clause": "count", "detail": f"subn reports {n} replacements for count={count}"})
     for (a, b) in ilines:
-        if source[a:b] not in out:
+        if source[a:b].rstrip("\n") not in out:
             probs.append({"clause": "ignore", "detail": f"ignored line {source[a:b]!r} not in the output"})
-    if not untouched_preserved(source, out, got):
-        probs.append({"clause": "untouched-text", "detail": f"{out!r}"})
-    # tree clause
-    applied_groups = []
-    by_range = {}
-    for (rng, binds, groups) in ms:
-        by_range.setdefault(rng, groups)
-    for r in got:
-        if r in by_range:
-            applied_groups.append(by_range[r])
     try:
-        ref = reference_tree(source, repl, applied_groups)
+        ref = reference_tree(source, repl, [g for (_, _, g) in want])
         ref_dump = dump_norm(ref)
         compile(ast.parse(ast.unparse(ref)), "<ref>", "exec")
     except (ValueError, SyntaxError, KeyError, TypeError, AttributeError):
@@ -354,10 +370,19 @@ def property_oracle(mods, pattern, repl, source, count, rec=None) -> list[dict]:
         except SyntaxError:
             out_dump = "<does not parse>"
         if out_dump != ref_dump:
-            probs.append({"clause": "tree", "detail": f"output {out!r} is not the source tree with the matched "
-                          f"nodes replaced; expected {ast.unparse(ref)!r}"})
-    if pattern == repl and dump_norm(out) != dump_norm(source):
-        probs.append({"clause": "self-substitution", "detail": f"{out!r}"})
+            probs.append({"clause": "tree", "detail": f"output {out!r} is not the source tree with the nodes of "
+                          f"the applied matches {ranges} replaced; expected {ast.unparse(ref)!r}"})
+        elif not untouched_preserved(source, out, ranges):
+            probs.append({"clause": "untouched-lines", "detail": f"{out!r}"})
+    elif out != source and not untouched_preserved(source, out, ranges):
+        probs.append({"clause": "untouched-lines", "detail": f"{out!r}"})
+    if pattern == repl:
+        try:
+            same = dump_norm(out) == dump_norm(source)
+        except SyntaxError:
+            same = False
+        if not same:
+            probs.append({"clause": "self-substitution", "detail": f"{out!r}"})
     return probs
 
 
@@ -369,56 +394,66 @@ ATOMIC = (ast.Name, ast.Constant, ast.Call, ast.Attribute, ast.Subscript, ast.Li
 
 
 def _parenthesised_variants(mods, case):
-    """(reference dump, dump with every binding parenthesised, dump with every binding and every
-    expression replacement parenthesised), or None when the case is not of that kind."""
+    """None unless the output of sub() is exactly what pasting the unparenthesised texts at the
+    expected matches gives (same tree; or the source when that text does not parse).  Otherwise
+    (reference dump, dump with every binding parenthesised, dump with every binding and every expression
+    replacement parenthesised)."""
     import textwrap
     pattern, repl, source, count = case["pattern"], case["repl"], case["source"], case["count"]
-    rec = run_subn(mods, pattern, repl, source, count)
-    if rec["error"]:
+    want = expected_applied(all_matches(mods, pattern, source), source, count)
+    if not want:
         return None
-    ms = {rng: (binds, groups) for (rng, binds, groups) in all_matches(mods, pattern, source)}
-    got = sorted(((s, e) for (_, _, s, e, _) in rec["sched"]), reverse=True)
-    if not got or any(r not in ms for r in got):
-        return None
-    text_a = text_b = source
+    with common.quiet():
+        out = mods["pattern_matching"].sub(pattern, repl, source, count)
+    ms = {rng: (binds, groups) for (rng, binds, groups) in want}
+    got = sorted(ms, reverse=True)
+    text_p = text_a = text_b = source
     for r in got:
         binds, groups = ms[r]
         root = groups._asdict().get("root")
-        filled = re.sub(r"\{\{(\w+)\}\}", lambda m: "(" + binds[m.group(1)] + ")", repl)
-        new = [x for (rr, x) in rec["items"] if rr == r]
-        if not new:
-            return None
-        # same placement as the real replacement text: only parentheses are added
-        first, nl, rest = textwrap.dedent(filled).partition("\n")
-        tail = new[0].partition("\n")[2]
-        ind = len(tail) - len(tail.lstrip(" ")) if tail.strip() else 0
-        filled = first + nl + textwrap.indent(rest, " " * ind)
-        text_a = text_a[:r[0]] + filled + text_a[r[1]:]
-        whole = "(" + filled + ")" if isinstance(root, ast.expr) else filled
-        text_b = text_b[:r[0]] + whole + text_b[r[1]:]
-    try:
-        ref = dump_norm(reference_tree(source, repl, [ms[r][1] for r in got]))
-    except (SyntaxError, ValueError, KeyError):
-        return None
+        # same placement as find_replace: continuation lines follow the line the match starts on
+        line = source[source.rfind("\n", 0, r[0]) + 1:r[1]].split("\n", 1)[0]
+        ind = len(line) - len(line.lstrip(" ")) if line.strip() else 0
+
+        def placed(fill):
+            filled = re.sub(r"\{\{(\w+)\}\}", lambda m: fill(binds[m.group(1)]), repl)
+            first, nl, rest = textwrap.dedent(filled).partition("\n")
+            return first + nl + textwrap.indent(rest, " " * ind)
+        plain, par = placed(lambda t: t), placed(lambda t: "(" + t + ")")
+        text_p = text_p[:r[0]] + plain + text_p[r[1]:]
+        text_a = text_a[:r[0]] + par + text_a[r[1]:]
+        text_b = text_b[:r[0]] + ("(" + par + ")" if isinstance(root, ast.expr) else par) + text_b[r[1]:]
 
     def d(t):
         try:
             return dump_norm(t)
         except SyntaxError:
             return None
+    # (1) the implementation did paste the plain texts at exactly the expected matches
+    if d(text_p) is None:
+        if out != source:
+            return None
+    elif d(out) != d(text_p):
+        return None
+    try:
+        ref = dump_norm(reference_tree(source, repl, [ms[r][1] for r in got]))
+    except (SyntaxError, ValueError, KeyError):
+        return None
     return ref, d(text_a), d(text_b)
 
 
 def sig_binding_precedence_lost(mods, case) -> bool:
-    """The only thing wrong is a missing pair of parentheses around a binding: filling the template
-    with every binding parenthesised gives exactly the tree-level result."""
+    """The output is the plain textual splice at the expected matches, and the only thing wrong with
+    it is a missing pair of parentheses around a binding: filling the template with every binding
+    parenthesised gives exactly the tree-level result."""
     v = _parenthesised_variants(mods, case)
     return bool(v) and v[1] == v[0]
 
 
 def sig_replacement_precedence_lost(mods, case) -> bool:
-    """Parenthesising the bindings is not enough, parenthesising the whole (expression) replacement as
-    well gives exactly the tree-level result: the replacement binds less tightly than its new context."""
+    """As above, but parenthesising the bindings is not enough: parenthesising the whole (expression)
+    replacement as well gives exactly the tree-level result -- the replacement binds less tightly than
+    its new context."""
     v = _parenthesised_variants(mods, case)
     return bool(v) and v[1] != v[0] and v[2] == v[0]
 
@@ -509,6 +544,8 @@ FIXED_SOURCES = [
     "x = f(\"s\") + f('t')\nprint(-x * 2)\n",
     "z = [f(i) for i in f(q) if not f(i) + 1]\n",
     "x = a if f(b) else c\ny = lambda: f(1)\n",
+    "x = f(  # pyrefact: ignore\n    f(1) + 1)\ny = f(f(2))\n",
+    "if a:\n    x = 1\n    y = 2  # pyrefact: ignore\n    x = 3\n    y = 4\n",
 ]
 
 
@@ -887,6 +924,7 @@ def grammar_cases(mods, tier, rnd):
             else:
                 toks[i] = rnd.choice(alphabet)
         strings.append(toks)
+    stats["parse-exhaustive"] = sum(len(alphabet) ** n for n in range(1, maxlen + 1))
     for toks in strings:
         r = py_parse(text_of_tokens(toks))
         rows.append(f"(CParse {g_toks(toks)} {gopt(r, g_expr)})")
@@ -1008,7 +1046,22 @@ def check(run: common.Run):
     corpus = load_corpus()
     cases = [c for (_, c) in corpus]
     n_corpus = len(cases)
-    cases += list(fixed_family(with_comments=True))
+    # where the pattern does not occur the result cannot depend on the replacement or the count: one
+    # representative per (pattern, source) is kept
+    occurs = {}
+
+    def prune(family):
+        seen_nomatch = set()
+        for c in family:
+            key = (c[0], c[2])
+            if key not in occurs:
+                occurs[key] = bool(all_matches(mods, c[0], c[2]))
+            if not occurs[key]:
+                if key in seen_nomatch:
+                    continue
+                seen_nomatch.add(key)
+            yield c
+    cases += list(prune(fixed_family(with_comments=True)))
     n_fixed = len(cases) - n_corpus
     gen = Gen(rnd)
     n_rand = 1500 if quick else 40000
@@ -1100,7 +1153,7 @@ def check(run: common.Run):
         edis += [k + i for i in idx]
 
     # ---------------- deterministic sweep: the property oracle on the fixed family + corpus ---------
-    sweep = [c for (_, c) in corpus] + list(fixed_family()) + minws_cases
+    sweep = [c for (_, c) in corpus] + list(prune(fixed_family())) + minws_cases
     sweep = list(dict.fromkeys(sweep))
     sweep_fail, by_finding = [], {}
     for c in sweep:
@@ -1208,7 +1261,7 @@ def check(run: common.Run):
                  edesc[100], edesc[-1]],
         exhaustive=False,
         exhaustive_part={"subn_fixed_family": n_fixed, "unparse_depth3": estats["unparse"],
-                         "token_strings_len<=%d" % (4 if quick else 5): estats["parse"],
+                         "token_strings_len<=%d" % (4 if quick else 5): estats["parse-exhaustive"],
                          "format_template_depth2": estats["inst"]},
         corpus_part=n_corpus, random_part=n_rand, outside_text_domain=outside,
         whitespace_cleanup_cases_oracle_only=len(minws_cases),
